@@ -271,6 +271,11 @@ def declared_but_unusable(clsname):
 
 
 def run_every(case):
+    if case['variant'] == -2:   # every declared attribute and the text set to the empty string
+        cls = G.classes()[case['cls']]
+        spec = {'cls': case['cls'], 'attrs': dict((m, '') for xn, m, t, r in G.attrs_of(cls)), 'children': {}, 'text': '' if getattr(cls, 'c_value_type', None) or not G.children_of(cls) else None}
+        roundtrip(spec, inject=None)
+        return 'empty-strings', True
     if case['variant'] < 0:     # bare instance: nothing set at all
         roundtrip({'cls': case['cls'], 'attrs': {}, 'children': {}, 'text': None}, inject=0)
         return 'bare', True
@@ -285,6 +290,7 @@ def every_cases():
     out = []
     for cn in sorted(G.classes()):
         out.append({'cls': cn, 'depth': 0, 'variant': -1, 'inject': 0})
+        out.append({'cls': cn, 'depth': 0, 'variant': -2, 'inject': 0})
         for depth in (1, 2):
             for variant in (0, 1):
                 out.append({'cls': cn, 'depth': depth, 'variant': variant, 'inject': variant})
